@@ -22,7 +22,7 @@ let () =
   let hist_meta = ref "" in
   let step_no = ref 0 in
   let pre_lines = ref [] and cur_st = ref [] in
-  let cur_op = ref None and orc = ref [] and res = ref ("", "") and xs = ref [] and hs = ref [] and gen = ref "" and fault = ref false and qr = ref [] and indep = ref "" and qpage = ref "" and order = ref "" in
+  let cur_op = ref None and orc = ref [] and res = ref ("", "") and xs = ref [] and hs = ref [] and gen = ref "" and fault = ref false and qr = ref [] and indep = ref "" and qpage = ref "" and order = ref "" and minv = ref "" in
   let mismatches = ref 0 and checkfails = ref 0 in
   let report_mismatch proj m i =
     incr mismatches;
@@ -124,6 +124,23 @@ let () =
                   Printf.printf "CHECK hist=%s step=%d prop=C17 checker=hook_before_transfers op=[%s] detail=[BeforeSellingCoinsAllocated of auction %s was called after coins had already left its escrow: %s] %s\n" !hist !step_no op_line a !order !hist_meta
               | None -> ()
             end;
+            (* C01: the module's own invariants, as reported by the Go functions on this state and as the model's
+               transcription (Checkers.selling_pool_b ...) evaluates on the same state *)
+            if !minv <> "" then begin
+              bump "module_invariant_runs";
+              let b x = if x then "0" else "1" in
+              let mine = Printf.sprintf "MINV s=%s p=%s v=%s" (b (M.selling_pool_b post_impl)) (b (M.paying_pool_b post_impl)) (b (M.vesting_pool_b post_impl)) in
+              let theirs = (match split !minv with [a; s; p; v; _] -> String.concat " " [a; s; p; v] | _ -> !minv) in
+              let all_consistent = (match split !minv with
+                | [_; s; p; v; all] -> (all = "all=1") = (s = "s=1" || p = "p=1" || v = "v=1")
+                | _ -> false) in
+              if mine <> theirs || not all_consistent then
+                report_mismatch "module_invariants" mine !minv;
+              if theirs <> "MINV s=0 p=0 v=0" then begin
+                incr checkfails;
+                Printf.printf "CHECK hist=%s step=%d prop=C01 checker=module_invariants op=[%s] detail=[the module's own invariants report a broken escrow in a reachable state: %s] %s\n" !hist !step_no op_line !minv !hist_meta
+              end
+            end;
             let tags = Checks.nontrivial ~pre ~op ~iclass ~xfers:pxs ~trace:phs ~post:post_impl ~fault:!fault in
             let tags = if !indep <> "" then "indep_probe" :: tags else tags in
             List.iter (fun k -> bump ("nt." ^ k)) tags;
@@ -148,7 +165,7 @@ let () =
         end
       end
       else if starts_with "OP " l then begin
-        cur_op := Some l; orc := []; res := ("", ""); xs := []; hs := []; gen := ""; fault := false; qr := []; indep := ""; qpage := ""; order := ""
+        cur_op := Some l; orc := []; res := ("", ""); xs := []; hs := []; gen := ""; fault := false; qr := []; indep := ""; qpage := ""; order := ""; minv := ""
       end
       else if starts_with "ORC " l then orc := parse_orc l :: !orc
       else if starts_with "RES " l then begin
@@ -164,6 +181,7 @@ let () =
       else if starts_with "INDEP " l then indep := l
       else if starts_with "QPAGE " l then qpage := l
       else if starts_with "ORDER " l then order := l
+      else if starts_with "MINV " l then minv := l
       else if l = "END" then begin
         process ();
         if !cur_op <> None then incr step_no;
